@@ -1,4 +1,5 @@
 import DilithiumVerif.Props.C01
+import DilithiumVerif.Lemmas.EndToEnd
 /-
   C06 — Emitted signatures respect the rejection bounds that protect the secret key.
   Part 1: an emitted signature is the packing of an iteration for which none of the four rejection tests fired,
@@ -89,5 +90,33 @@ theorem emitted_passed_all_tests (p : Params) (mat : List PolyVec) (mu rp : List
       pack_sig p (ct ++ List.replicate (p.sigBytes - p.ctilde) 0) none z hints = .ok sig := by
   obtain ⟨j, hj, hacc, _⟩ := C01.sign_loop_some p mat mu rp s1h s2h t0h fuel 0 sig h
   exact ⟨j, hj, accept_passed_all_tests p mat mu rp s1h s2h t0h _ sig hacc⟩
+
+/-! ## Part 2: the tested quantities are the ones the specification names (through the ring semantics of C13)
+
+  `Complete.SignFacts` and `Complete.SignSecret` (Lemmas/Complete.lean) collect, for an accepted iteration with mask nonce κ:
+  * z, h: ‖z‖∞ < γ1 − β; h is a 0/1 vector of 256·K entries with at most ω ones (`hw`, `hbits`); c̃ = H(μ ‖ w1Encode(w1));
+  * y is the mask `ExpandMask(ρ′, κ)` and z = c·s1 + y (`mask`, `zy`: stated at the 256 NTT points, which determine the polynomial);
+  * w = A·y with coefficients in [0, q) (`wy`, `wstd`), (w1, w0) = (HighBits, LowBits)(w) (`dec`);
+  * for every coefficient, Decompose((w − c·s2) mod q) = (r0, w1) with |r0| < γ2 − β (`low`): the low bits of A·y − c·s2 are
+    below γ2 − β and its high bits are those of A·y;
+  * ‖c·t0‖∞ < γ2 (`ct0E`). -/
+
+open DV.Complete in
+/-- **Every emitted signature respects the rejection bounds.** For each of the six parameter sets, a key pair from
+    `keypair`, any message and mode: a signature returned by `signature` decodes canonically (`unpack_sig` accepts it and
+    returns (c̃, z, h)) and comes from an iteration κ < fuel for which all the facts above hold, with the secret
+    (s1, s2, t0) being what the secret key decodes to and A the expansion of its ρ. -/
+theorem emitted_signature_respects_bounds (p : Params) (hp : p ∈ allParams) (seed : Option (List Nat)) (tape : Tape) (pk sk : List Nat)
+    (tape' : Tape) (hk : keypair p seed tape = .ok (pk, sk, tape'))
+    (fuel : Nat) (msg : List Nat) (randomized : Bool) (tape2 : Tape) (sig : List Nat) (tape3 : Tape)
+    (hs : signature p fuel msg sk randomized tape2 = .ok (some sig, tape3)) :
+    ∃ (rho tr key : List Nat) (s1 s2 t1 t0 : PolyVec) (mat : List PolyVec) (mu rp : List Nat) (κ : Nat)
+      (ct : List Nat) (cp : Poly) (z h w1 a0 y w w0 cs2 r0 ct0 : PolyVec),
+      unpack_sk p sk = .ok (rho, tr, key, t0, s1, s2) ∧ matrix_expand p FUEL rho = .ok mat ∧ KeyFacts p mat s1 s2 t1 t0 ∧
+      compute_mu tr p.trBytes msg = .ok mu ∧ κ < fuel ∧
+      unpack_sig p sig = .ok (true, ct, z, h) ∧
+      SignFacts p mat s1 s2 t0 mu sig ct cp z h w1 a0 ∧
+      SignSecret p mat s1 s2 t0 rp (κ : Int) cp z w1 a0 y w w0 cs2 r0 ct0 :=
+  emitted_signature_facts p hp seed tape pk sk tape' hk fuel msg randomized tape2 sig tape3 hs
 
 end DV.C06
